@@ -797,6 +797,11 @@ where
 
     drop(actor_drop_guard);
 
+    // Commands this session never got to may own pipe ends (ScaInitializePipes). What is queued in a
+    // mailbox outlives its dropped receiver for as long as a sender exists, so it is taken out here:
+    // a send() blocked on such a pipe then sees it closed.
+    while self.command_mailbox_receiver.try_recv().is_ok() {}
+
     if had_error {
       self.session_regulator.enforce_min_lifespan().await;
     }
